@@ -29,28 +29,28 @@ theorem cinv_step_mid {s : CSh} {pre post : List CTh} {t : CTh} {s' : CSh} {t' :
         rw [h1, h2]
         simp only [okD, Bool.and_eq_true] at hsi
         exact cinv_ctl h (.lockA x) r s.dm hni (by simp [isInner]) (by intro k hk; simpa [fDm, hc] using hk)
-          (by simp only [SI]; exact hsi)
+          (by simp only [SI]; exact hsi) (by simp [unrg, hc])
       | rlock xs =>
         simp only [hs, List.mem_singleton, Prod.mk.injEq] at hmem
         obtain ⟨h1, h2⟩ := hmem
         rw [h1, h2]
         simp only [okD, Bool.and_eq_true] at hsi
         exact cinv_ctl h (.rlockA xs) r s.dm hni (by simp [isInner]) (by intro k hk; simpa [fDm, hc] using hk)
-          (by simp only [SI]; exact hsi)
+          (by simp only [SI]; exact hsi) (by simp [unrg, hc])
       | unlock x =>
         simp only [hs, List.mem_singleton, Prod.mk.injEq] at hmem
         obtain ⟨h1, h2⟩ := hmem
         rw [h1, h2]
         simp only [okD, Bool.and_eq_true, List.contains_iff_mem] at hsi
         exact cinv_ctl h (.unlockA x) r s.dm hni (by simp [isInner]) (by intro k hk; simpa [fDm, hc] using hk)
-          (by simp only [SI]; exact hsi)
+          (by simp only [SI]; exact hsi) (by simp [unrg, hc])
       | runlock xs =>
         simp only [hs, List.mem_singleton, Prod.mk.injEq] at hmem
         obtain ⟨h1, h2⟩ := hmem
         rw [h1, h2]
         simp only [okD, Bool.and_eq_true] at hsi
         exact cinv_ctl h (.runlockA xs) r s.dm hni (by simp [isInner]) (by intro k hk; simpa [fDm, hc] using hk)
-          (by simp only [SI]; exact hsi)
+          (by simp only [SI]; exact hsi) (by simp [unrg, hc])
   | lockA x =>
     have hni : isInner t = false := by simp [isInner, hc]
     have hsi := hti.si
@@ -59,7 +59,7 @@ theorem cinv_step_mid {s : CSh} {pre post : List CTh} {t : CTh} {s' : CSh} {t' :
     cases hd : s.dm <;> simp [hd] at hmem
     obtain ⟨rfl, rfl⟩ := hmem
     have := cinv_ctl h (.lockC x) t.script true hni (by simp [isInner])
-      (by intro k hk; simp [fDm, hc, hd] at hk ⊢; omega) (by simp only [SI]; exact hsi)
+      (by intro k hk; simp [fDm, hc, hd] at hk ⊢; omega) (by simp only [SI]; exact hsi) (by simp [unrg, hc])
     exact this
   | rlockA xs =>
     have hni : isInner t = false := by simp [isInner, hc]
@@ -69,7 +69,7 @@ theorem cinv_step_mid {s : CSh} {pre post : List CTh} {t : CTh} {s' : CSh} {t' :
     cases hd : s.dm <;> simp [hd] at hmem
     obtain ⟨rfl, rfl⟩ := hmem
     exact cinv_ctl h (.rlockC xs) t.script true hni (by simp [isInner])
-      (by intro k hk; simp [fDm, hc, hd] at hk ⊢; omega) (by simp only [SI]; exact hsi)
+      (by intro k hk; simp [fDm, hc, hd] at hk ⊢; omega) (by simp only [SI]; exact hsi) (by simp [unrg, hc])
   | unlockA x =>
     have hni : isInner t = false := by simp [isInner, hc]
     have hsi := hti.si
@@ -78,7 +78,7 @@ theorem cinv_step_mid {s : CSh} {pre post : List CTh} {t : CTh} {s' : CSh} {t' :
     cases hd : s.dm <;> simp [hd] at hmem
     obtain ⟨rfl, rfl⟩ := hmem
     exact cinv_ctl h (.unlockC x) t.script true hni (by simp [isInner])
-      (by intro k hk; simp [fDm, hc, hd] at hk ⊢; omega) (by simp only [SI]; exact hsi)
+      (by intro k hk; simp [fDm, hc, hd] at hk ⊢; omega) (by simp only [SI]; exact hsi) (by simp [unrg, hc])
   | runlockA xs =>
     have hni : isInner t = false := by simp [isInner, hc]
     have hsi := hti.si
@@ -87,7 +87,7 @@ theorem cinv_step_mid {s : CSh} {pre post : List CTh} {t : CTh} {s' : CSh} {t' :
     cases hd : s.dm <;> simp [hd] at hmem
     obtain ⟨rfl, rfl⟩ := hmem
     exact cinv_ctl h (.runlockC xs) t.script true hni (by simp [isInner])
-      (by intro k hk; simp [fDm, hc, hd] at hk ⊢; omega) (by simp only [SI]; exact hsi)
+      (by intro k hk; simp [fDm, hc, hd] at hk ⊢; omega) (by simp only [SI]; exact hsi) (by simp [unrg, hc])
   | lockC x =>
     simp only [hc, List.mem_singleton, Prod.mk.injEq] at hmem
     obtain ⟨rfl, rfl⟩ := hmem
@@ -105,12 +105,12 @@ theorem cinv_step_mid {s : CSh} {pre post : List CTh} {t : CTh} {s' : CSh} {t' :
       obtain ⟨rfl, rfl⟩ := hmem
       exact cinv_rlockC_cons h hc hr
   | unlockC x =>
-    obtain ⟨s1, o, e1, hci⟩ := cinv_unlockC h hc
+    obtain ⟨o, e1, hci⟩ := cinv_unlockC h hc
     simp only [hc, e1, List.mem_singleton, Prod.mk.injEq] at hmem
     obtain ⟨rfl, rfl⟩ := hmem
     exact hci
   | runlockC xs =>
-    obtain ⟨s1, e1, hnil, hcons⟩ := cinv_runlockC h hc
+    obtain ⟨e1, hnil, hcons⟩ := cinv_runlockC h hc
     simp only [hc, e1] at hmem
     cases xs with
     | nil =>
@@ -121,6 +121,34 @@ theorem cinv_step_mid {s : CSh} {pre post : List CTh} {t : CTh} {s' : CSh} {t' :
       simp only [List.map_cons, List.mem_singleton, Prod.mk.injEq] at hmem
       obtain ⟨rfl, rfl⟩ := hmem
       exact hcons x xs' rfl
+  | unregA x =>
+    have hni : isInner t = false := by simp [isInner, hc]
+    have hsi := hti.si
+    simp only [SI, hc] at hsi
+    simp only [hc] at hmem
+    cases hd : s.dm <;> simp [hd] at hmem
+    obtain ⟨rfl, rfl⟩ := hmem
+    exact cinv_ctl h (.unregC x) t.script true hni (by simp [isInner])
+      (by intro k hk; simp [fDm, hc, hd] at hk ⊢; omega) (by simp only [SI]; exact hsi) (by simp [unrg, hc])
+  | runregA xs =>
+    have hni : isInner t = false := by simp [isInner, hc]
+    have hsi := hti.si
+    simp only [SI, hc] at hsi
+    simp only [hc] at hmem
+    cases hd : s.dm <;> simp [hd] at hmem
+    obtain ⟨rfl, rfl⟩ := hmem
+    exact cinv_ctl h (.runregC xs) t.script true hni (by simp [isInner])
+      (by intro k hk; simp [fDm, hc, hd] at hk ⊢; omega) (by simp only [SI]; exact hsi) (by simp [unrg, hc])
+  | unregC x =>
+    obtain ⟨s1, o, e1, hci⟩ := cinv_unregC h hc
+    simp only [hc, e1, List.mem_singleton, Prod.mk.injEq] at hmem
+    obtain ⟨rfl, rfl⟩ := hmem
+    exact hci
+  | runregC xs =>
+    obtain ⟨s1, os, e1, hci⟩ := cinv_runregC h hc
+    simp only [hc, e1, List.mem_singleton, Prod.mk.injEq] at hmem
+    obtain ⟨rfl, rfl⟩ := hmem
+    exact hci
   | inner k =>
     simp only [hc] at hmem
     by_cases hi : t.ipc = .idle
@@ -134,9 +162,11 @@ theorem cinv_step_mid {s : CSh} {pre post : List CTh} {t : CTh} {s' : CSh} {t' :
         rw [this]
         exact cinv_ret_grant h hc hi .w (Or.inl ⟨hiop, rfl⟩)
       | unlock =>
-        have : ret t k = { t with ctl := .idle } := by simp [ret, hiop]
+        rw [hiop] at hko
+        obtain ⟨x, rfl⟩ := hko
+        have : ret t (.ul x) = { t with ctl := .unregA x } := by simp [ret, hiop]
         rw [this]
-        exact cinv_ret_plain h hc hi (Or.inl hiop)
+        exact cinv_ret_plain h hc hi (Or.inl ⟨hiop, x, rfl, rfl⟩)
       | rlock =>
         rw [hiop] at hko
         obtain ⟨rest, rfl⟩ := hko
@@ -153,14 +183,14 @@ theorem cinv_step_mid {s : CSh} {pre post : List CTh} {t : CTh} {s' : CSh} {t' :
           exact cinv_ret_rlock_next h hc hi hiop
       | runlock =>
         rw [hiop] at hko
-        obtain ⟨rest, rfl⟩ := hko
+        obtain ⟨rest, ids, rfl⟩ := hko
         cases rest with
         | nil =>
-          have : ret t (.ru []) = { t with ctl := .idle } := by simp [ret, hiop]
+          have : ret t (.ru [] ids) = { t with ctl := .runregA ids } := by simp [ret, hiop]
           rw [this]
-          exact cinv_ret_plain h hc hi (Or.inr ⟨hiop, rfl⟩)
+          exact cinv_ret_plain h hc hi (Or.inr ⟨hiop, ids, rfl, rfl⟩)
         | cons o1 rest =>
-          have : ret t (.ru (o1 :: rest)) = startInner t .runlock 0 o1 (.ru rest) := by simp [ret, hiop]
+          have : ret t (.ru (o1 :: rest) ids) = startInner t .runlock 0 o1 (.ru rest ids) := by simp [ret, hiop]
           rw [this]
           exact cinv_ret_runlock_next h hc hi hiop
     · simp only [hi, if_false, List.mem_map] at hmem
@@ -207,13 +237,13 @@ theorem cinv_init {scripts : List (List DOp)} (hwb : Dag.WBD scripts) :
     intro sc; rfl
   · intro x
     rw [z]; · rfl
-    intro sc; simp [regc, CTh.new, acq, isInner, restEnts, restPairs]
+    intro sc; simp [regc, CTh.new, acq, isInner, restEnts, restPairs, unrg]
   · intro x; simp [initCfg, CSh.init]
   · intro x o h; simp [initCfg, CSh.init] at h
   · intro x y o h; simp [initCfg, CSh.init] at h
   · intro t ht
     obtain ⟨sc, hsc, rfl⟩ := hnew t ht
-    refine ⟨fun _ => rfl, by simp [KOk, CTh.new], ?_, ?_, ?_, ⟨?_, ?_, ?_⟩⟩
+    refine ⟨fun _ => rfl, by simp [KOk, CTh.new], ?_, ?_, ?_, ⟨?_, ?_, ?_⟩, by simp [unrg, CTh.new]⟩
     · rw [lk_outside_iff (by simp [isInner, CTh.new]) rfl]
       intro o; simp [CTh.new, cR, cW]
     · simp only [SI, CTh.new]; exact hwb sc hsc
